@@ -40,6 +40,12 @@ def alphabet(name, ABS):
             # two leading separators in front of an absolute location: in a level-0 name, in a level-2 path header
             entry("f", b"", b"", b"evil13", level=0, raw_name=b"\\\\" + rel_abs.replace(b"/", b"\\") + b"\\f"),
             entry("f", b"", b"f", b"evil14", raw_path=b"\xff\xff" + rel_abs.replace(b"/", b"\xff") + b"\xff"),
+            # 22 bytes that are no header (the level byte is 9): whatever lies behind them is not part of the archive
+            b"\x14\x00-lh0-" + bytes(13) + b"\x09\x00",
+            # directory entries without a file name whose path header climbs out
+            entry("d", b"", b"", raw_path=b"..\xffc10dir\xff", perms=0o040700),
+            lzhfmt.build_header(1, b"-lhd-", packed=0, size=0, crc=0, name=b"", time=lzhfmt.dos_time(2010, 1, 1, 0, 0, 0),
+                                exts=[(2, b"sub\xff..\xff..\xffc10dir2\xff"), (0x50, b"\xc0\x41")]),
             # the name supplied twice, a longer harmless one first: level-1 base name + 0x01 header; two 0x01 headers
             lzhfmt.build_header(1, b"-lh0-", packed=6, size=6, crc=lzhfmt.crc16(b"evil11"), name=b"aaaaaaaaaaaa", time=lzhfmt.dos_time(2010, 1, 1, 0, 0, 0),
                                 exts=[(1, b"../f")]) + b"evil11",
@@ -60,7 +66,7 @@ def alphabet(name, ABS):
     ]
 
 
-NAMES = {"A1": ["f", "d/f", "../f", "/ABS/f", "d/../../f", "a\\..\\..\\f(L0)", "..<FF>outside<FF>+f", "w/g", "d/(0555)", "s->d", "w->../outside", "abcd->ABS", "..<NUL>+f", "a<NUL>/../f(L1)", "..\\f(L0)", "..\\outside\\f(L1)", "ABS\\f(L1)", "dir ..<NUL>", "dir /ABS/sub/", "m->d/../../outside", "m/g", "n->./..", "f(-lh2-)", "d/f(-lh3-)", "\\\\ABS\\f(L0)", "<FF><FF>ABS<FF>+f", "aaaa+../f(L1 twice)", "aaaa+/ABS/f(twice)"],
+NAMES = {"A1": ["f", "d/f", "../f", "/ABS/f", "d/../../f", "a\\..\\..\\f(L0)", "..<FF>outside<FF>+f", "w/g", "d/(0555)", "s->d", "w->../outside", "abcd->ABS", "..<NUL>+f", "a<NUL>/../f(L1)", "..\\f(L0)", "..\\outside\\f(L1)", "ABS\\f(L1)", "dir ..<NUL>", "dir /ABS/sub/", "m->d/../../outside", "m/g", "n->./..", "f(-lh2-)", "d/f(-lh3-)", "\\\\ABS\\f(L0)", "<FF><FF>ABS<FF>+f", "<22 bytes, no header>", "dir ..<FF>c10dir<FF>", "dir sub<FF>..<FF>..<FF>c10dir2<FF>(L1)", "aaaa+../f(L1 twice)", "aaaa+/ABS/f(twice)"],
          "A2": ["q/", "f", "p/g", "p->q", "p->abcd", "p->w", "abcd->ABS", "w->../outside", "p/z->ABS/x", "abcd/k"]}
 
 
@@ -166,7 +172,8 @@ def run_case(runner, space, case):
                 viol.append(("c10-preexisting-link-kept", "%r is still a symbolic link after extraction" % k))
         # link entries replace a pre-existing link with their own target
         for k, idx, tgt in ((b"s", 9, b"d"), (b"w", 10, b"../outside"), (b"abcd", 11, ABS)):
-            if idx in case["seq"] and r.status == "exit:0" and k in r.tree and (r.tree[k][0] != "l" or r.tree[k][3] != tgt):
+            reached = any(o[0] in ("unlink", "symlink", "remove") and o[1] == k for o in r.ops)      # the archive may end before the entry (entries that are no headers)
+            if idx in case["seq"] and reached and r.status == "exit:0" and k in r.tree and (r.tree[k][0] != "l" or r.tree[k][3] != tgt):
                 viol.append(("c10-preexisting-link-not-replaced", "%r is %r after extraction, the archive says link to %r" % (k, r.tree[k][:1] + r.tree[k][3:], tgt)))
     if r.status not in ("exit:0", "exit:1", "exit:255"):
         viol.append(("c10-abnormal-exit", "%s %r" % (r.status, r.stderr[:200])))
